@@ -55,6 +55,10 @@ func shape(body *ast.BlockStmt) []string {
 	var toks []string
 	var chans []string
 	calls := map[string]bool{}
+	// functions that take an object out of a sync.Pool: the order of pool.Get / uses (Push) / pool.Put matters (the
+	// object is exclusively owned between Get and Put), so it is recorded in source order
+	var poolseq []string
+	usesPool := false
 	deferred := map[*ast.CallExpr]bool{}
 	ast.Inspect(body, func(n ast.Node) bool {
 		switch x := n.(type) {
@@ -82,6 +86,12 @@ func shape(body *ast.BlockStmt) []string {
 			pre := ""
 			if deferred[x] {
 				pre = "defer "
+			}
+			if strings.Contains("."+name, ".pool.") && (l == "Get" || l == "Put") {
+				usesPool = true
+				poolseq = append(poolseq, pre+"pool."+l)
+			} else if l == "Push" {
+				poolseq = append(poolseq, pre+"Push")
 			}
 			switch {
 			case l == "Lock" || l == "Unlock" || l == "RLock" || l == "RUnlock" || l == "TryLock" || l == "TryRLock":
@@ -114,6 +124,10 @@ func shape(body *ast.BlockStmt) []string {
 	if len(chans) > 0 {
 		toks = append(toks, "| chan:")
 		toks = append(toks, chans...)
+	}
+	if usesPool {
+		toks = append(toks, "| pool-order:")
+		toks = append(toks, poolseq...)
 	}
 	var cs []string
 	for c := range calls {
